@@ -178,7 +178,7 @@ def tromptdec(m):
 
 def gen_idx(rng, base, tier='quick'):
     """a batch composition over `base` rows: subset / permutation / duplicates / singleton / empty / all"""
-    kind = rng.choice(['perm', 'dups', 'subset', 'single', 'empty', 'all', 'dups'])
+    kind = rng.choice(['perm', 'dups', 'subset', 'single', 'empty', 'all', 'dups', 'perm', 'subset', 'dups'])
     if base == 0:
         return 'empty', []
     if kind == 'perm':
